@@ -24,7 +24,7 @@ def shapes(tier: str) -> List[tuple]:
     all3 = [s for n in (1, 2, 3) for s in itertools.product((1, 2, 3), repeat=n)]
     if tier == "thorough":
         return all3 + [s for s in itertools.product((1, 2, 3), repeat=4)] + [(2, 2, 2, 2, 2), (4, 3, 5)]
-    return all3 + [(2, 2, 2, 2), (2, 1, 3, 2), (3, 2, 2, 3)]
+    return all3 + [(2, 2, 2, 2), (2, 1, 3, 2), (3, 2, 2, 3), (5, 6, 5)]
 
 
 def call(ev: dict) -> dict:
@@ -35,11 +35,16 @@ def call(ev: dict) -> dict:
     op, a = ev["op"], ev["args"]
     try:
         if op == "sub2ind":
-            subs = np.array(a["subs"], dtype=int).reshape(len(a["subs"]), len(a["shape"]))
+            # index arrays may be stored with a narrow integer type when their values fit (rotated with the layout)
+            narrow = {"default": int, "swapped": np.int32, "strided": np.int8, "grown": np.int16}[bind.get_layout()]
+            sdt = narrow if all(x <= 127 for x in a["shape"]) else int
+            subs = bind.lay(np.array(a["subs"], dtype=sdt).reshape(len(a["subs"]), len(a["shape"])))
             r = u.tt_sub2ind(tuple(a["shape"]), subs)
             return {"st": "ok", "idx": [bind.num(x) for x in np.asarray(r).reshape(-1)]}
         if op == "ind2sub":
-            r = u.tt_ind2sub(tuple(a["shape"]), np.array(a["idx"], dtype=int))
+            narrow = {"default": int, "swapped": np.int32, "strided": np.int8, "grown": np.int16}[bind.get_layout()]
+            idt = narrow if all(abs(x) <= 127 for x in a["idx"]) else int
+            r = u.tt_ind2sub(tuple(a["shape"]), bind.lay(np.array(a["idx"], dtype=idt)))
             r = np.asarray(r)
             if r.ndim != 2:
                 return {"st": "bad-result-layout"}
